@@ -89,6 +89,7 @@ class DocEngine:
         self.shadow = None  # the original left behind by clone_swap
         self.twin = None  # C10: (DocSUT) the other twin
         self.n_twin_ops = 0
+        self.n_twins = 0
         self.n_reads_run = 0
 
     def close(self):
@@ -488,7 +489,8 @@ class DocEngine:
         if any(n not in sut.store.over and n not in sut.store.touched for n in sut.store.names()) and sut.src.get("path"):
             self.stats.probe("clone_of_lazily_loaded_document")
         tw = ds.DocSUT(self.scratch)
-        tw.counter = 1000
+        self.n_twins += 1
+        tw.counter = 1000 * self.n_twins  # (its own range of scratch file names: never the other twin's paths)
         tw.doc = res
         st = ds.PartStore()
         st.mimetype = sut.store.mimetype
